@@ -2,9 +2,9 @@ SPECIFICATION Spec
 CONSTANTS
   Fuel = 24
   TickLimit = 2
-  K = 5
-  Alphabet <- AlphaLoops
-  ItemAlphabet <- ItemsLoops
+  K = 6
+  Alphabet <- AlphaNest
+  ItemAlphabet <- NoItems
   Mode = "c02"
 INVARIANT Emit
 CHECK_DEADLOCK FALSE
